@@ -8,6 +8,7 @@ import AsmjitVerif.Lemmas.C18Hash
 import AsmjitVerif.Lemmas.C18Bits2
 import AsmjitVerif.Lemmas.C18HashMap
 import AsmjitVerif.Lemmas.C18HashSwap
+import AsmjitVerif.Lemmas.C18ArenaStr
 import AsmjitVerif.Lemmas.C18ListPool
 import AsmjitVerif.Lemmas.C18TreeIns11
 import AsmjitVerif.Lemmas.C18TreeRem22
@@ -525,5 +526,34 @@ theorem list_refines_list (ops : List LOp) (hv : LValid [] ops) :
         walk fuel (ListPool2.runModel (#[{}], {}) ops).1 (ListPool2.runModel (#[{}], {}) ops).2.last false = (runList [] ops).reverse :=
   ListPool2.list_refines_list ops hv
 end ListS
+
+/-! ## `Arena::dup` and `ArenaString<N>` (support/arenastring.h). -/
+section ArenaStrS
+open AsmjitVerif.ArenaStr AsmjitVerif.Arena
+
+/-- `Arena::dup(data, size, null_terminate)`: a successful call returns a oneshot block whose size is the 8-aligned
+`size (+1)`, holds the data, and is zero from the end of the data to the end of the block (terminator and padding) -/
+theorem arena_dup_spec {a a' : State} {bytes : List Nat} {nt : Bool} {p : Loc} {allocSize : Nat} {blk : List Nat}
+    (h : dup a bytes nt = (a', some (p, allocSize, blk))) :
+    bytes ≠ [] ∧ allocSize % 8 = 0 ∧ bytes.length + (if nt then 1 else 0) ≤ allocSize ∧
+    allocSize < bytes.length + (if nt then 1 else 0) + 8 ∧ blk.length = allocSize ∧ blk.take bytes.length = bytes ∧
+    (∀ i, bytes.length ≤ i → i < allocSize → blk.getD i 1 = 0) ∧ allocOneshot a allocSize = (a', some p) :=
+  dup_spec h
+/-- `ArenaString<N>::set_data`: never writes outside the object, stores exactly the bytes, null terminated, embedded iff they
+fit into `N - 5` bytes, otherwise in an arena block; a failed allocation leaves the object unchanged -/
+theorem arena_string_set_spec (a : State) (s : AStr) (bytes : List Nat) (hw : s.embedded.length = s.whole - 4)
+    (h16 : 16 ≤ s.whole) (h32 : bytes.length < u32) :
+    ∃ a' s' e, setData a s bytes = some (a', s', e) ∧ (e = .oom → s' = s) ∧
+      (e = .ok → content s' = bytes ∧ terminated s' = true ∧ s'.size = bytes.length ∧ s'.whole = s.whole ∧
+        s'.embedded.length = s.embedded.length ∧ (s'.isEmbedded = true ↔ bytes.length ≤ s.whole - 5)) :=
+  setData_spec a s bytes hw h16 h32
+/-- every sequence of `set_data` calls, each against an ARBITRARY arena state (allocation oracle), from a fresh
+`ArenaString<N>`: the content is the bytes of the last successful call and the string is null terminated -/
+theorem arena_string_refines_bytes (n : Nat) (ops : List (State × List Nat)) (hb : ∀ op ∈ ops, op.2.length < u32) :
+    ∃ s' es, runOps (new n) ops = some (s', es) ∧ es.length = ops.length ∧
+      content s' = lastOk [] ((ops.map (·.2)).zip es) ∧ terminated s' = true ∧ s'.whole = max n 16 ∧
+      s'.embedded.length = max n 16 - 4 :=
+  ArenaStr.arena_string_refines_bytes n ops hb
+end ArenaStrS
 
 end AsmjitVerif.C18
